@@ -753,7 +753,17 @@ run_hist (kase const &k)
 	  bool use_b = tok[ab] == 'b';
 	  long sid = std::stol (tok.substr (ab + 2));
 	  if (use_b && qb == nullptr)
-	    qb = zw_query_parse_len (g_voc, k.query.data (), k.query.size (), &e);
+	    {
+	      qb = zw_query_parse_len (g_voc, k.query.data (), k.query.size (), &e);
+	      if (qb == nullptr)
+		{
+		  // the text compiled at the start of this history is rejected now
+		  std::string msg = e ? zw_error_message (e) : "";
+		  if (e)
+		    zw_error_destroy (e);
+		  return "{\"recompile_error\":" + jstr (msg) + "}";
+		}
+	    }
 	  zw_result *r = zw_query_execute (use_b ? qb : qa, stacks[sid], &e);
 	  results[id] = r;
 	}
